@@ -61,6 +61,8 @@ pub struct Knobs {
     pub max_depth: usize,
     /// forms that are known to stack-overflow (excluded by construction while listed as known)
     pub allow_cyclic_types: bool,
+    /// always import vue's defineComponent and end the module with a call of it
+    pub force_define_component: bool,
 }
 
 impl Default for Knobs {
@@ -74,6 +76,7 @@ impl Default for Knobs {
             max_items: 5,
             max_depth: 3,
             allow_cyclic_types: true,
+            force_define_component: false,
         }
     }
 }
@@ -136,7 +139,12 @@ impl<'a, 'b> G<'a, 'b> {
             "import { a, b, x, y, o, f, g, xs, p, q, m, sl, C, D, NS } from \"env\";\n",
         );
         // optional user imports from vue
-        match self.c.weighted(&[10, 2, 2, 2, 1, 1]) {
+        let imp = if self.k.force_define_component {
+            2
+        } else {
+            self.c.weighted(&[10, 2, 2, 2, 1, 1])
+        };
+        match imp {
             0 => {}
             1 => out.push_str("import { Fragment } from \"vue\";\n"),
             2 => {
@@ -163,6 +171,11 @@ impl<'a, 'b> G<'a, 'b> {
                 out.push('\n');
             }
             let it = self.item(has_dc);
+            out.push_str(&it);
+            out.push('\n');
+        }
+        if self.k.force_define_component {
+            let it = self.define_component_item(true);
             out.push_str(&it);
             out.push('\n');
         }
@@ -421,12 +434,12 @@ impl<'a, 'b> G<'a, 'b> {
                 let e = self.expr(depth + 1);
                 // object-literal / sequence bodies need parens; all our exprs are safe except
                 // objects, which `expr` always parenthesises itself
-                format!("() => {e}")
+                format!("(() => {e})")
             }
             3 => {
                 self.f.ctx("arrow-block");
                 let b = self.block(depth + 1);
-                format!("(arg0) => {b}")
+                format!("((arg0) => {b})")
             }
             4 => {
                 let t = self.small_expr(depth);
@@ -832,14 +845,14 @@ impl<'a, 'b> G<'a, 'b> {
                 };
                 format!("({a})[{i}]")
             }
-            8 => format!("[{}, {}?]", self.ts_type(depth + 1), self.ts_type(depth + 1)),
+            8 => format!("[({}), ({})?]", self.ts_type(depth + 1), self.ts_type(depth + 1)),
             9 => {
                 self.f.unusual("unsupported-type");
                 self.c
                     .choose(&["keyof Foo", "typeof x", "T extends U ? X : Y", "{ [K in \"a\"]: K }", "unique symbol", "`a${string}`", "1n", "-1", "this", "readonly string[]"])
                     .to_string()
             }
-            _ => format!("(e: {}, ...r: any[]) => void", self.ts_type(depth + 1)),
+            _ => format!("((e: {}, ...r: any[]) => void)", self.ts_type(depth + 1)),
         }
     }
 
